@@ -38,7 +38,8 @@ def canon_lit(v):
   if isinstance(v, float):
     return T('float', v.hex() if v == v else 'nan')
   if isinstance(v, complex):
-    return T('complex', repr(v))
+    # both parts exactly (the model compares numbers by value: 0j == 0 == False is one dict key)
+    return T('complex', v.real.hex() if v.real == v.real else 'nan', v.imag.hex() if v.imag == v.imag else 'nan')
   if isinstance(v, str):
     return T('str', v.encode('unicode_escape').decode('ascii'))
   if isinstance(v, bytes):
